@@ -63,9 +63,34 @@ def _has_nonstring_leaf(mappings):
     return False
 
 
+class FunctionDictSurface(ResolveSurface):
+    """the same expression handed over as pycfmodel FunctionDict OBJECTS (what model attributes hold before resolution)"""
+    name = "resolver.resolve(FunctionDict objects, params, mappings, conditions)"
+
+    @staticmethod
+    def objectify(v):
+        from pycfmodel.model.base import FunctionDict
+        from pycfmodel.utils import is_resolvable_dict
+        if isinstance(v, dict):
+            if is_resolvable_dict(v):
+                k = next(iter(v))
+                return FunctionDict(**{k: v[k]})        # the body stays plain data, as after model validation
+            return {k: FunctionDictSurface.objectify(x) for k, x in v.items()}
+        if isinstance(v, list):
+            return [FunctionDictSurface.objectify(x) for x in v]
+        return v
+
+    def impl(self, x):
+        import copy
+        from pycfmodel.resolver import resolve
+        return core.impl_call(lambda: resgen.to_wire(resolve(self.objectify(copy.deepcopy(x["expr"])), copy.deepcopy(x["params"]),
+                                                             copy.deepcopy(x["mappings"]), dict(x["conds"]))))
+
+
 RESOLVE = ResolveSurface()
+FDICT = FunctionDictSurface()
 E2E = tplgen.E2ESurface("C01_sound (through CFModel.resolve: C07_resource_local)")
-SURFACES = {RESOLVE.name: RESOLVE, E2E.name: E2E}
+SURFACES = {RESOLVE.name: RESOLVE, FDICT.name: FDICT, E2E.name: E2E}
 
 
 def corpus():
@@ -91,6 +116,8 @@ def cases(rng, tier, shard, nshards):
     n = {"quick": 2500, "thorough": 25000}[tier]
     for k in range(n):
         yield RESOLVE, gen_case(rng)
+        if k % 4 == 1:
+            yield FDICT, gen_case(rng)
         if k % 3 == 0:
             yield E2E, tplgen.gen_template(rng, focus="values")
 
